@@ -13,9 +13,10 @@
     (a mutex operation, one atomic load / CAS of the flag, one DB read, or the
     DB batch write).  The scheduler ([list sched_item]) is arbitrary.
 
-    The model follows the code as it is, in particular in ProcWalletSetPasswd:
-    load of the flag, then CAS(1->0), BEFORE the old password is verified, and
-    the deferred CAS(0->saved value).  No proofs in this file. *)
+    The model follows the code as it is (chain33 66be1e2): ProcWalletSetPasswd
+    reads the flag once (its checkWalletStatus) and never writes it; after the
+    old password is verified it reads the seed with HasSeed + GetSeed(db, old).
+    No proofs in this file. *)
 From Coq Require Import List ZArith NArith Bool.
 From C33 Require Import Lib.Harness.
 Import ListNotations.
@@ -84,11 +85,8 @@ Inductive pc :=
 | PU_seed | PU_check | PU_cas | PU_timer
 (* ProcWalletLock *)
 | PL_seed | PL_cas
-(* ProcWalletSetPasswd; [t] = tempislock *)
-| PS_flag | PS_seed | PS_load
-| PS_cas (t : bool) | PS_verify (t : bool)
-| PS_gs_flag (t : bool) | PS_gs_seed (t : bool) | PS_write (t : bool)
-| PS_restore (t : bool) (r : result)
+(* ProcWalletSetPasswd *)
+| PS_flag | PS_seed | PS_verify | PS_hasseed | PS_write
 (* flag-checking requests *)
 | PX_flag | PX_seed | PX_secret
 (* lock-free observers *)
@@ -132,10 +130,9 @@ Inductive event :=
 | ELock (tid : nat)                     (* the CAS(0->1) of ProcWalletLock *)
 | EFire                                 (* the CAS(0->1) of the timer function *)
 | ERestart
-| EObs (tid : nat) (unlocked held inwin : bool) (t : Z)
+| EObs (tid : nat) (unlocked held : bool) (t : Z)
       (* a flag read by an observer: [held] = under wallet.mtx (checkWalletStatus of a
-         request), [inwin] = some thread is between the CAS and the restore of a
-         SetPasswd that started on a locked wallet *)
+         request) *)
 | ESecret (tid : nat)                   (* a request returned a stored secret / signed with it *)
 | EApiSecret (tid : nat)                (* GetPrivKeyByAddr returned a key *)
 | ERet (tid : nat) (r : result).
@@ -150,12 +147,6 @@ Definition holds (p : pc) : bool :=
   match p with
   | PAcq | PDone _ | PL_seed | PL_cas | PO_read | PO_seed _ => false
   | _ => true
-  end.
-
-Definition in_window (p : pc) : bool :=
-  match p with
-  | PS_verify true | PS_gs_flag true | PS_gs_seed true | PS_write true | PS_restore true _ => true
-  | _ => false
   end.
 
 Definition init_pc (q : req) : pc :=
@@ -202,7 +193,7 @@ Definition is_secret (r : result) : bool :=
   match r with RSecret | RWrongSecret => true | _ => false end.
 
 Definition setpw_after_status (nw : pw) : pc :=
-  if valid_pw nw then PS_load else PRel (RErr eInvalidPw).
+  if valid_pw nw then PS_verify else PRel (RErr eInvalidPw).
 
 Definition verify_old (s : shared) (old : pw) : bool :=
   if is_empty (mem_pw s) then
@@ -212,10 +203,10 @@ Definition verify_old (s : shared) (old : pw) : bool :=
     end
   else pw_eqb old (mem_pw s).
 
-(** [step_thread tid anywin s q p] = [None] when the thread cannot move
+(** [step_thread tid s q p] = [None] when the thread cannot move
     (finished, or waiting for the mutex); otherwise the new shared state, the
     new pc and the events of the step (newest first). *)
-Definition step_thread (tid : nat) (anywin : bool) (s : shared) (q : req) (p : pc)
+Definition step_thread (tid : nat) (s : shared) (q : req) (p : pc)
   : option (shared * pc * list event) :=
   match p with
   | PDone _ => None
@@ -273,37 +264,31 @@ Definition step_thread (tid : nat) (anywin : bool) (s : shared) (q : req) (p : p
           Some (s, if has_seed s then setpw_after_status nw else PRel (RErr eSaveSeedFirst), [])
       | _ => None
       end
-  | PS_load => Some (s, PS_cas (locked s), [])
-  | PS_cas t => Some (set_locked s false, PS_verify t, [])          (* CAS(1->0) *)
-  | PS_verify t =>
+  | PS_verify =>                                    (* the lock flag is neither read nor written from here on *)
       match q with
       | QSetPasswd old _ =>
-          Some (s, if verify_old s old then PS_gs_flag t else PS_restore t (RErr eVerifyOld), [])
+          Some (s, if verify_old s old then PS_hasseed else PRel (RErr eVerifyOld), [])
       | _ => None
       end
-  | PS_gs_flag t =>                                                  (* getSeed: checkWalletStatus *)
-      Some (s, if locked s then PS_restore t (RErr eLocked) else PS_gs_seed t, [])
-  | PS_gs_seed t =>
-      Some (s, if has_seed s then PS_write t else PS_restore t (RErr eSaveSeedFirst), [])
-  | PS_write t =>
+  | PS_hasseed =>                                                    (* walletStore.HasSeed *)
+      Some (s, if has_seed s then PS_write else PRel (RErr eSaveSeedFirst), [])
+  | PS_write =>                                                      (* GetSeed(db, old) ... batch.Write *)
       match q with
       | QSetPasswd old nw =>
-          if is_empty old then Some (s, PS_restore t (RErr eInvalidParam), [])
+          if is_empty old then Some (s, PRel (RErr eInvalidParam), [])
           else match disk_pw s with
                | Some d =>
                    if pw_eqb old d
-                   then Some (set_pws s (Some nw) nw, PS_restore t ROk, [])
-                   else Some (s, PS_restore t (RErr eInputPw), [])
-               | None => Some (s, PS_restore t (RErr eInputPw), [])
+                   then Some (set_pws s (Some nw) nw, PRel ROk, [])
+                   else Some (s, PRel (RErr eInputPw), [])
+               | None => Some (s, PRel (RErr eInputPw), [])
                end
       | _ => None
       end
-  | PS_restore t r =>                                                (* CAS(0->tempislock) *)
-      Some (if locked s then s else set_locked s t, PRel r, [])
   (* ---- requests that test the flag under the mutex *)
   | PX_flag =>
       Some (s, if locked s then PRel (RErr eLocked) else PX_seed,
-            [EObs tid (negb (locked s)) true anywin (now s)])
+            [EObs tid (negb (locked s)) true (now s)])
   | PX_seed =>
       Some (s, if has_seed s then PX_secret else PRel (RErr eSaveSeedFirst), [])
   | PX_secret =>
@@ -316,9 +301,9 @@ Definition step_thread (tid : nat) (anywin : bool) (s : shared) (q : req) (p : p
   (* ---- lock-free observers *)
   | PO_read =>
       match q with
-      | QStatus => Some (s, PO_seed (locked s), [EObs tid (negb (locked s)) false anywin (now s)])
+      | QStatus => Some (s, PO_seed (locked s), [EObs tid (negb (locked s)) false (now s)])
       | _ => Some (s, PDone (RBool (locked s)),
-                   [ERet tid (RBool (locked s)); EObs tid (negb (locked s)) false anywin (now s)])
+                   [ERet tid (RBool (locked s)); EObs tid (negb (locked s)) false (now s)])
       end
   | PO_seed v =>
       Some (s, PDone (RStatus v (has_seed s)), [ERet tid (RStatus v (has_seed s))])
@@ -339,9 +324,6 @@ Record gstate := mkG {
   sh : shared;
   thr : list (req * pc);
   trace : list event;        (* newest first *)
-  split_race : bool;         (* ghost: some SetPasswd CAS(1->0) ran on a flag value other than
-                                the one its preceding load saw (a Lock / timer CAS in between) *)
-  obs_in_win : bool;         (* ghost: a lock-free observer read the flag inside a SetPasswd window *)
 }.
 
 Inductive sched_item :=
@@ -352,7 +334,7 @@ Inductive sched_item :=
 | SRestart.            (* process restart: new Wallet object on the same DB; only when no request is in flight *)
 
 Definition init_shared : shared := mkShared true None None 0 None [] 0.
-Definition init_g : gstate := mkG init_shared [] [] false false.
+Definition init_g : gstate := mkG init_shared [] [].
 
 Fixpoint upd {A} (i : nat) (x : A) (l : list A) : list A :=
   match l, i with
@@ -361,32 +343,18 @@ Fixpoint upd {A} (i : nat) (x : A) (l : list A) : list A :=
   | y :: tl, S i' => y :: upd i' x tl
   end.
 
-Definition any_window (ts : list (req * pc)) : bool :=
-  existsb (fun t => in_window (snd t)) ts.
-
 Definition is_done (t : req * pc) : bool :=
   match snd t with PDone _ => true | _ => false end.
-
-Definition step_ghost_split (s : shared) (p : pc) : bool :=
-  match p with PS_cas t => negb (Bool.eqb t (locked s)) | _ => false end.
-
-Definition step_ghost_obs (anywin : bool) (p : pc) : bool :=
-  match p with PO_read => anywin | _ => false end.
 
 Definition exec1 (g : gstate) (it : sched_item) : gstate :=
   match it with
   | SSpawn q =>
       mkG (sh g) (thr g ++ [(q, init_pc q)]) (ESpawn (length (thr g)) q :: trace g)
-          (split_race g) (obs_in_win g)
   | SStep i =>
       match nth_error (thr g) i with
       | Some (q, p) =>
-          let w := any_window (thr g) in
-          match step_thread i w (sh g) q p with
-          | Some (s', p', evs) =>
-              mkG s' (upd i (q, p') (thr g)) (evs ++ trace g)
-                  (split_race g || step_ghost_split (sh g) p)
-                  (obs_in_win g || step_ghost_obs w p)
+          match step_thread i (sh g) q p with
+          | Some (s', p', evs) => mkG s' (upd i (q, p') (thr g)) (evs ++ trace g)
           | None => g
           end
       | None => g
@@ -395,23 +363,22 @@ Definition exec1 (g : gstate) (it : sched_item) : gstate :=
       if d <? 0 then g
       else match timer (sh g) with
            | Some dl => if now (sh g) + d <=? dl
-                        then mkG (set_now (sh g) (now (sh g) + d)) (thr g) (trace g) (split_race g) (obs_in_win g)
+                        then mkG (set_now (sh g) (now (sh g) + d)) (thr g) (trace g)
                         else g
-           | None => mkG (set_now (sh g) (now (sh g) + d)) (thr g) (trace g) (split_race g) (obs_in_win g)
+           | None => mkG (set_now (sh g) (now (sh g) + d)) (thr g) (trace g)
            end
   | SFire =>
       match timer (sh g) with
       | Some dl =>
           if dl <=? now (sh g)
           then mkG (set_locked (set_timer (sh g) None) true) (thr g) (EFire :: trace g)
-                   (split_race g) (obs_in_win g)
           else g
       | None => g
       end
   | SRestart =>
       if forallb is_done (thr g)
       then mkG (mkShared true None None (now (sh g)) (disk_pw (sh g)) [] (naccts (sh g)))
-               (thr g) (ERestart :: trace g) (split_race g) (obs_in_win g)
+               (thr g) (ERestart :: trace g)
       else g
   end.
 
@@ -436,7 +403,7 @@ Definition result_of (g : gstate) (i : nat) : option result :=
   | _ => None
   end.
 
-(** the longest request has 12 steps *)
+(** the longest request (ProcWalletSetPasswd on an unlocked wallet) has 7 steps *)
 Definition call (q : req) (g : gstate) : gstate * option result :=
   let i := length (thr g) in
   let g' := run_thread 16 i (exec1 g (SSpawn q)) in
